@@ -87,6 +87,9 @@ type Config struct {
 	TimerLegacy bool     `json:"timerLegacy"` // pre-Go-1.23 timer channel semantics
 	MaxSteps    int      `json:"maxSteps"`
 	PCTDepth    int      `json:"pctDepth"`
+	// PostUnlockYield: a worker also yields right after releasing a mutex, so that the window
+	// between "unlock" and the next instruction that touches shared state can be interleaved
+	PostUnlockYield bool `json:"postUnlockYield,omitempty"`
 	Trace       bool     `json:"-"` // keep a full textual trace
 }
 
@@ -124,6 +127,7 @@ type Sim struct {
 
 	held [256]heldLock // known-held mutexes
 	onces [64]uintptr  // sync.Once currently running
+	conds map[uintptr][]chan struct{} // emulated sync.Cond wait lists
 
 	ctlWake chan struct{}
 	ctlGoid uint64
